@@ -85,7 +85,6 @@ structure RSt (D : Type) where
   bufCap : Nat := cfg.maxActive   -- slots of `cLogBuf` (grown at open when more precommitted txs are on disk)
   ghost : Option (RRec D) := none -- record written at the append position by a precommit that then failed in `cLogBuf.put`
   waitDone : Nat := 0             -- `inmemPrecommitWHub.doneUpto`: highest id precommitted since open (NOT receded by a discard)
-  poolBlRoot : Bytes := zeros32   -- `header.BlRoot` of the pooled `Tx` object the next `precommit` gets (sequential use of the tx pool)
 
 /-- The in-memory precommitted records (content of `cLogBuf`). -/
 def RSt.pre (st : RSt D) : List (RRec D) := (st.log.filter (·.2)).map (·.1)
@@ -173,8 +172,9 @@ def txmdEmptyOrExtraOnly : Option TxMd → Bool
 
 /-- The header `performPrecommit` writes: ID/PrevAlh/BlRoot/Eh/NEntries are the store's own values
 (checked against the supplied ones before), Ts/BlTxID/Version/Metadata are TAKEN from the supplied
-header.  `blRoot` is what ends up in `tx.header.BlRoot`: Go assigns it only `if blTxID > 0`; for
-`BlTxID = 0` the pooled `Tx` keeps the `BlRoot` of its previous use (`RSt.poolBlRoot`). -/
+header.  `blRoot` is what ends up in `tx.header.BlRoot`: the tree's root `if blTxID > 0`, the zero
+value otherwise (the `else` branch of `performPrecommit`; before that repair the pooled `Tx` kept the
+`BlRoot` of its previous use there). -/
 def storedHdr (hs : Hs D) (st : RSt D) (p : Parsed) (n : Nat) (blRoot : Bytes) (eh : D) : TxHdr :=
   { id := st.lastPre + 1, ts := p.hdr.ts, blTxID := p.hdr.blTxID, blRoot := blRoot,
     prevAlh := hs.enc (st.preAlh hs), version := p.hdr.version, md := p.hdr.md,
@@ -216,8 +216,8 @@ def precommit (hs : Hs D) (st : RSt D) (p : Parsed) (skip : Bool) : Except XErr 
               -- performPrecommit
               else if st.cfg.synced ∧ st.committed.length + st.cfg.maxActive ≤ st.lastPre then .error .maxActive
               else
-                -- performPrecommit: `if blTxID > 0 { tx.header.BlRoot = aht.RootAt(blTxID) }` — otherwise left as found
-                let blStored : Bytes := if p.hdr.blTxID > 0 then blRoot else st.poolBlRoot
+                -- performPrecommit: `if blTxID > 0 { tx.header.BlRoot = aht.RootAt(blTxID) } else { tx.header.BlRoot = [32]byte{} }`
+                let blStored : Bytes := if p.hdr.blTxID > 0 then blRoot else zeros32
                 let h := storedHdr hs st p es.length blStored eh
                 match alhH hs h with
                 | .error _ => .error .panic
@@ -263,9 +263,9 @@ def replicate (hs : Hs D) (st : RSt D) (b : Bytes) (skip : Bool) : Step D (RRec 
     | .ok r =>
       -- `cLogBuf.put` fails AFTER the record was appended to the tx log at the append position:
       -- nothing in memory changes, but the bytes are there until the next append overwrites them
-      if st.pre.length ≥ st.bufCap then ⟨.error .bufferFull, { st with ghost := some r, poolBlRoot := r.hdr.blRoot }⟩
+      if st.pre.length ≥ st.bufCap then ⟨.error .bufferFull, { st with ghost := some r }⟩
       else
-      let st1 : RSt D := { st with log := st.log ++ [(r, true)], ghost := none, poolBlRoot := r.hdr.blRoot,
+      let st1 : RSt D := { st with log := st.log ++ [(r, true)], ghost := none,
                                    waitDone := if st.waitDone < st.lastPre + 1 then st.lastPre + 1 else st.waitDone }
       if st.cfg.synced then ⟨.ok r, st1⟩
       else
@@ -352,16 +352,7 @@ overwritten by the next append). -/
 def restart (hs : Hs D) (st : RSt D) : RSt D :=
   let recs := st.log.map (·.1) ++ st.ghost.toList
   let chain := reload hs st.committed.length (hs.enc (st.committedAlh hs)) recs
-  -- the fresh tx pool's first object has read: the last committed tx, every re-loaded record, and the
-  -- first record that did not chain (read completely, then refused)
-  let lastRead : Option (RRec D) :=
-    match (recs.drop chain.length).head? with
-    | some r => some r
-    | none => match chain.getLast? with
-      | some r => some r
-      | none => st.committed.getLast?
   { st with log := chain.map (fun r => (r, true)),
-            poolBlRoot := (match lastRead with | some r => r.hdr.blRoot | none => zeros32),
             ghost := none,
             waitDone := st.committed.length + chain.length,
             durable := st.committed.length + chain.length,
